@@ -25,6 +25,10 @@ class PathEnd(Exception):
     """The current path ends here (cut loop body finished, infeasible, failed hard obligation)."""
 
 
+class Truncated(PathEnd):
+    """the path was cut at a loop marked `truncate` (nothing beyond it is verified)"""
+
+
 class SymReturn(Exception):
     def __init__(self, value):
         self.value = value
@@ -266,6 +270,9 @@ class Engine:
                 outcome = ("end", None)
             except SymRaise as e:
                 outcome = ("raise", e.exc)
+            except Undecided as e:
+                # the path cannot be continued; what was obliged before stays obliged
+                outcome = ("undecided", str(e))
             work.extend(run.pending)
             results.append((run, outcome))
         return results
@@ -511,6 +518,10 @@ class Engine:
             return
         if spec is None:
             raise Undecided(f"loop #{self.loop_ordinal(fr, st)} of {fr.info.key} over a symbolic iterable needs an invariant")
+        if spec.truncate:
+            run.trust(f"TRUNCATED: {fr.info.key} is verified only up to its loop #{self.loop_ordinal(fr, st)} (not beyond)")
+            run.cover("truncation point")
+            raise Truncated()
         return self.cut_loop_for(run, st, fr, items, spec)
 
     def cut_loop_for(self, run, st, fr, seq, spec):
@@ -551,6 +562,10 @@ class Engine:
         if spec is None:
             # bounded unrolling is not a proof: refuse
             raise Undecided(f"while loop #{self.loop_ordinal(fr, st)} of {fr.info.key} needs an invariant")
+        if spec.truncate:
+            run.trust(f"TRUNCATED: {fr.info.key} is verified only up to its loop #{self.loop_ordinal(fr, st)} (not beyond)")
+            run.cover("truncation point")
+            raise Truncated()
         env = LoopEnv(self, run, fr)
         spec.init_ghost(run, env)
         for nm, g in spec.invariant(run, env, z3.IntVal(0), None):
@@ -1238,6 +1253,7 @@ class LoopSpec:
     keep: set = set()
     force = False
     has_variant = False
+    truncate = False        # True: the path ends at this loop; what follows is NOT verified (stated in the trusted base)
 
     def init_ghost(self, run, env):
         pass
